@@ -168,12 +168,20 @@ def impl(case):
             body.insert(pos - len(head), cm)
     allines = head + body
     f3 = _dir / "w3.hap"
-    open(f3, "w").write("\n".join(allines) + "\n")
+    open(f3, "w").write(C.text_ending(case, "w3.hap", "\n".join(allines) + "\n"))
     rd = READERS[case["reader"]]
     r3 = Haplotypes(f3, haplotype=K[rd["kw"][0]], variant=K[rd["kw"][1]], repeat=K[rd["kw"][2]], log=SD.silent_log())
     r3.read()
     _lines[C.jdump(case)] = [l.split("\t") for l in allines]
-    return {"same_bytes": raw == raw2, "first_write": [l.split("\t") for l in lines] if not raw == raw2 else None, "read": canon(r3, rd["names"])}
+    obs = {"same_bytes": raw == raw2, "first_write": [l.split("\t") for l in lines] if not raw == raw2 else None, "read": canon(r3, rd["names"])}
+    if C.plumb(case, "stream", 4) == 0:
+        # the same file offered as a stream (what `cat x.hap | haptools … /dev/stdin` hands the reader): same records
+        with C.as_stream(f3) as fifo:
+            r4 = Haplotypes(fifo, haplotype=K[rd["kw"][0]], variant=K[rd["kw"][1]], repeat=K[rd["kw"][2]], log=SD.silent_log())
+            r4.read()
+        if canon(r4, rd["names"]) != obs["read"]:
+            obs["stream_differs"] = True
+    return obs
 
 
 def model_req(case):
@@ -191,6 +199,8 @@ def oracle(case, obs):
         return f"write/read raised {obs}"
     if not obs["same_bytes"]:
         return "writing what was read does not reproduce the file byte for byte"
+    if obs.get("stream_differs"):
+        return "the file read as a stream (a named pipe, as /dev/stdin is) gives other records than the same file read by name"
     rd = READERS[case["reader"]]
     # after the shuffle the file order of the H/R lines is the reader's record order; variants keep file order per haplotype:
     # compare as sets of records with their variant multisets, plus exact field values
